@@ -517,6 +517,8 @@ func (s *Sim) Exec(i int, st *Step) (ran bool) {
 		return s.stepShutdown()
 	case "quiesce":
 		return s.stepQuiesce(st.Rounds)
+	case "settle":
+		return s.stepSettle(st.Rounds)
 	}
 	return false
 }
@@ -1051,6 +1053,24 @@ func (s *Sim) autoRound(dt int64) {
 		}
 	}
 	panic("harness: autoRound did not settle")
+}
+
+// stepSettle runs a few fault-free scheduling rounds (used by prologues); no
+// convergence judgement is attached to it.
+func (s *Sim) stepSettle(rounds int) bool {
+	if !s.alive {
+		return false
+	}
+	s.fair = true
+	defer func() { s.fair = false }()
+	step := s.Cfg.SignalTimeoutMs
+	if step <= 0 {
+		step = 1
+	}
+	for i := 0; i < rounds && s.alive; i++ {
+		s.autoRound(step)
+	}
+	return true
 }
 
 func (s *Sim) stepQuiesce(rounds int) bool {
